@@ -2,6 +2,7 @@ package fbb
 
 import (
 	"bytes"
+	"fmt"
 	"compress/gzip"
 	"hash/crc32"
 	"io"
@@ -27,5 +28,29 @@ func H_models_gzip() {
 	symAssert(err == nil, "gzip-header")
 	out, err := io.ReadAll(r)
 	symAssert(err == nil && len(out) == 3 && out[0] == 'a' && out[1] == b && out[2] == 'c', "gzip-round-trip")
+	symReach("end")
+}
+
+// Validation of the fmt model on a symbolic format string (a caller passing
+// user data as the format): literal bytes pass through, "%%" collapses, a
+// dangling verb yields fmt's diagnostic text.
+func H_models_fmt() {
+	b := symBytes(2)
+	for _, c := range b {
+		symAssume(c >= 0x20 && c < 0x7f)
+	}
+	s := string(b)
+	out := fmt.Sprintf(s + "\r")
+	switch {
+	case b[0] != '%' && b[1] != '%':
+		symAssert(out == s+"\r", "literal-format-passes-through")
+		symReach("literal")
+	case b[0] == '%' && b[1] == '%':
+		symAssert(out == "%\r", "double-percent-collapses")
+		symReach("escaped")
+	default:
+		symAssert(out != s+"\r", "a-verb-without-operand-is-not-copied-verbatim")
+		symReach("verb")
+	}
 	symReach("end")
 }
